@@ -458,12 +458,17 @@ func variants(thorough bool) []sx.Variant {
 		big := p.HB || p.SR
 		bound := 1
 		if thorough {
+			// k = 2 everywhere; k = 3 on the smallest variants of each endpoint family (k = 3 on all
+			// ~140 variants does not finish in 2.5 hours: 179 M executions and still capped)
 			bound = 2
-			if !big {
+			if !big && p.Consumer == "drain" && p.Writer == "none" && !p.Incoming && !p.Late && !p.SlowClose {
 				bound = 3
 			}
 		}
 		_ = big
+		if p.SlowClose {
+			bound = 1 // every Close adds a timer the adversarial clock may fire at any point: k = 2 costs 35 minutes
+		}
 		out = append(out, sx.Variant{
 			Name:        p.name(),
 			Class:       "close",
